@@ -30,10 +30,10 @@ theorem gen_window_arms : Huginn.Gen.Tokens.windowParse =
     [("tag", "*", 0, "Any"), ("prefix-num", "mss*", 8, "Mss"), ("prefix-num", "mtu*", 8, "Mtu"),
      ("prefix-num", "%", 16, "Mod"), ("num", "", 16, "Value")] := by decide +kernel
 
-/-- `eol+n` first, then only plain tags, `?n` (with `unwrap_or(0)`) last -/
+/-- `eol+n` first, then only plain tags, `?n` (range-checked like every other number) last -/
 theorem gen_option_arms :
     Huginn.Gen.Tokens.tcpOptionParse.head? = some ("prefix-num", "eol+", 8, "Eol") ∧
-    Huginn.Gen.Tokens.tcpOptionParse.getLast? = some ("prefix-num-or0", "?", 8, "Unknown") ∧
+    Huginn.Gen.Tokens.tcpOptionParse.getLast? = some ("prefix-num", "?", 8, "Unknown") ∧
     (Huginn.Gen.Tokens.tcpOptionParse.drop 1).dropLast.all (fun a => a.1 == "tag") = true := by decide +kernel
 
 theorem gen_tcp_shape : Huginn.Gen.Tokens.tcpSigShape =
@@ -42,7 +42,7 @@ theorem gen_tcp_shape : Huginn.Gen.Tokens.tcpSigShape =
      "list0 , parse_quirk", "tag :", "parse_payload_size"] := by decide +kernel
 
 theorem gen_http_shape : Huginn.Gen.Tokens.httpSigShape =
-    ["parse_http_version", "tag :", "list1 , parse_http_header", "tag :", "optlist0 , parse_http_header",
+    ["parse_http_version", "tag :", "list0 , parse_http_header", "tag :", "optlist0 , parse_http_header",
      "tag :", "rest"] := by decide +kernel
 
 theorem gen_display_templates :
@@ -83,47 +83,29 @@ theorem tcp_print_line_safe (s : TcpSig) : LineSafe (printTcpSig s) := lineSafe_
 
 /-! ### HTTP signatures -/
 
-/-- The full statement of the property for HTTP signatures: every value over the vocabulary
-(also with an empty `horder`) prints to text that parses back to itself.  **False on the current
-tree** (`kf_httpEmptyHorder_witness`); proved outside `KF.C06.httpEmptyHorder` below. -/
-def FullHttpPrintParse : Prop :=
-  ∀ s : HttpSigL, WFHttpL s → parseHttpSigFullL (printHttpSigL s) = some s
-
-/-- **HTTP signatures print to text that parses back to the same value**, for every value over
-the vocabulary with at least one header in `horder`.  (Header names in `horder` may even be empty;
-only `habsent` needs non-empty names.) -/
-theorem http_print_parse_partial (s : HttpSigL) (hv : versionInGrammar s.version = true)
-    (hh : ∀ h ∈ s.horder, WFHdrL h) (ha : ∀ h ∈ s.habsent, WFHdrL h ∧ h.name ≠ [])
-    (hkf : ¬ Huginn.KF.C06.httpEmptyHorder s) :
-    parseHttpSigFullL (printHttpSigL s) = some s :=
-  parseHttpSigFullL_print s hv hh ha hkf
+/-- **HTTP signatures print to text that parses back to the same value** — every value over the
+vocabulary (version 0/1/*, headers with non-empty names over `[A-Za-z0-9-]`, optional marks, bracketed
+values without `]`, any `expsw`), both header lists of any length, **also empty**. -/
+theorem http_print_parse_L (s : HttpSigL) (h : WFHttpL s) : parseHttpSigFullL (printHttpSigL s) = some s :=
+  parseHttpSigFullL_print s h
 
 /-- the same on the shared `Sig` types (`String` fields) -/
-theorem http_print_parse (s : HttpSig) (h : WFHttp s) (hkf : ¬ Huginn.KF.C06.httpEmptyHorder (.ofSig s)) :
-    parseHttpSigFull (printHttpSig s) = some s := by
-  have := http_print_parse_partial (.ofSig s) h.version (fun x hx => (h.horder x hx).1) h.habsent hkf
+theorem http_print_parse (s : HttpSig) (h : WFHttp s) : parseHttpSigFull (printHttpSig s) = some s := by
+  have := http_print_parse_L (.ofSig s) h
   unfold parseHttpSigFull printHttpSig
   rw [this]
   obtain ⟨ver, horder, habsent, expsw⟩ := s
   simp [HttpSigL.toSig, HttpSigL.ofSig, HeaderL.toSig, HeaderL.ofSig, String.ofList_toList, Function.comp_def]
 
-/-- the full statement fails inside the known-finding class: `1:::x` comes back with one header -/
-theorem kf_httpEmptyHorder_witness : ¬ FullHttpPrintParse := by
-  intro h
-  have := h ⟨.v11, [], [], ['x']⟩ (by decide)
-  revert this
-  decide +kernel
-
-/-- non-vacuity of `http_print_parse_partial`: a vocabulary value with every header shape -/
+/-- non-vacuity: a vocabulary value with every header shape, and the former finding (empty `horder`) -/
 example : WFHttpL ⟨.any, [⟨false, "Host".toList, none⟩, ⟨true, "Accept".toList, some ",*/*;q=".toList⟩],
-    [⟨false, "Keep-Alive".toList, none⟩], "Firefox/".toList⟩ ∧
-    ¬ Huginn.KF.C06.httpEmptyHorder ⟨.any, [⟨false, "Host".toList, none⟩], [], []⟩ := by decide +kernel
+    [⟨false, "Keep-Alive".toList, none⟩], "Firefox/".toList⟩ ∧ WFHttpL ⟨.v11, [], [], ['x']⟩ ∧
+    parseHttpSigFullL "1:::x".toList = some ⟨.v11, [], [], ['x']⟩ := by decide +kernel
 
 /-! ### canonical lines: parse, then print -/
 
 /-- **Every canonical TCP signature line that parses, prints back to the same line.**  `CanonTcp` is
-lexical (it does not mention the parser): no numeral of the line has a leading zero and there is no
-`?n` with n > 255. -/
+lexical (it does not mention the parser): no numeral of the line has a leading zero. -/
 theorem parse_print_canonical_tcp (l : Str) (sg : TcpSig) (h : parseTcpSigFull l = some sg)
     (hc : CanonTcp l) : printTcpSig sg = l :=
   parseTcpSig_canon h hc
@@ -143,134 +125,96 @@ example : CanonTcp "*:64:0:*:mss*20,10:mss,sok,ts,nop,ws,eol+2,?77:df,id+,0+,ts1
 example : (parseTcpSigFull "4:064:0:*:*,*:::0".toList).map printTcpSig = some "4:64:0:*:*,*:::0".toList := by
   decide +kernel
 
-/-- **Parsing an HTTP signature loses nothing**: for *every* text the parser accepts, printing the value
-read (before the name filter on `habsent`) reproduces the text exactly. -/
-theorem parse_print_http_raw (l r : Str) (raw : HttpSigL) (h : parseHttpSigRawL l = some (raw, r)) :
-    r = [] ∧ printHttpSigL raw = l :=
-  parseHttpSigRawL_inv h
+/-- **Every HTTP signature line that parses, prints back to the same line** — no canonicity condition:
+the HTTP grammar has no redundant spellings (and, since a header needs a name, the `habsent` name filter
+never removes anything). -/
+theorem parse_print_http (l : Str) (s : HttpSigL) (h : parseHttpSigFullL l = some s) : printHttpSigL s = l :=
+  parseHttpSig_inv h
 
-/-- **Every canonical HTTP signature line that parses, prints back to the same line**; canonical: the
-`habsent` segment is empty or has no nameless header (those are filtered away after parsing). -/
-theorem parse_print_canonical_http (l : Str) (s : HttpSigL) (h : parseHttpSigFullL l = some s)
-    (hc : HabsentCanon l) : printHttpSigL s = l :=
-  parseHttpSig_canon h hc
-
-/-- the hypothesis is needed: `1:Host:,A:x` loses the nameless header -/
-example : (parseHttpSigFullL "1:Host:,A:x".toList).map printHttpSigL = some "1:Host:A:x".toList := by
+example : parseHttpSigFullL "1:Host:,A:x".toList = none ∧ parseHttpSigFullL "1:::".toList = some ⟨.v11, [], [], []⟩ := by
   decide +kernel
 
 /-! ### which texts are accepted: the parsers against the declarative grammars -/
 
-/-- The full statement: `tcp::Signature::from_str` accepts exactly the lines of the TCP signature
-language `Spec.TcpLine` (a declarative description as concatenations of field spellings, written from
-the p0f format, not from the parser) and returns the value the line denotes.  **False on the current
-tree** (`kf_unknownKindOverflow_witness`): `?300` is accepted. -/
-def FullTcpGrammar : Prop := ∀ l s, parseTcpSigFull l = some s ↔ TcpLine l s
+/-- **`tcp::Signature::from_str` accepts exactly the lines of the TCP signature language** `Spec.TcpLine`
+(a declarative description as concatenations of field spellings, written from the p0f format, not from
+the parser) **and returns the value the line denotes** — every spelling (leading zeros too), any number of
+options and quirks, also none.  In particular text that is not a signature is rejected. -/
+theorem tcp_grammar (l : Str) (s : TcpSig) : parseTcpSigFull l = some s ↔ TcpLine l s :=
+  ⟨line_of_parseTcpSigFull, parseTcpSigFull_of_line⟩
 
-/-- **Completeness** (no exclusion needed): every line of the language parses to the value it denotes —
-every spelling (leading zeros too), any number of options and quirks, also none. -/
-theorem tcp_grammar_complete (l : Str) (s : TcpSig) (h : TcpLine l s) : parseTcpSigFull l = some s :=
-  parseTcpSigFull_of_line h
-
-/-- **Soundness outside the finding**: whatever the parser accepts (and does not contain `?n`, n > 255) is a
-line of the language, denoting exactly the returned value — so text that is not a signature is rejected. -/
-theorem tcp_grammar_partial (l : Str) (s : TcpSig) (hk : ¬ Huginn.KF.C06.unknownKindOverflow l) :
-    parseTcpSigFull l = some s ↔ TcpLine l s :=
-  ⟨fun h => line_of_parseTcpSigFull h hk, parseTcpSigFull_of_line⟩
-
-/-- so: text that is not a signature of the language is rejected (outside the finding) -/
-theorem tcp_not_line_rejected (l : Str) (hk : ¬ Huginn.KF.C06.unknownKindOverflow l)
-    (h : ∀ s, ¬ TcpLine l s) : parseTcpSigFull l = none := by
+theorem tcp_not_line_rejected (l : Str) (h : ∀ s, ¬ TcpLine l s) : parseTcpSigFull l = none := by
   cases hp : parseTcpSigFull l with
   | none => rfl
-  | some s => exact absurd ((tcp_grammar_partial l s hk).mp hp) (h s)
+  | some s => exact absurd ((tcp_grammar l s).mp hp) (h s)
 
-/-- `*:64:0:*:*,0:?300::0` is accepted (as `?0`) although it is not a line of the language -/
-theorem kf_unknownKindOverflow_witness : ¬ FullTcpGrammar := fun h =>
-  overflow_not_line ((h overflowLine overflowValue).mp overflow_parses)
+/-- non-vacuity: a non-canonical line with every field form is in the language; the former finding
+`?300` is rejected -/
+example : TcpLine "4:64+03:0:1460:mss*020,7:mss,eol+1,?12:df,0+:+".toList
+      ⟨.v4, .distance 64 3, 0, some 1460, .mss 20, some 7, [.mss, .eol 1, .unknown 12], [.df, .mustBeZero], .nonZero⟩ ∧
+    parseTcpSigFull "*:64:0:*:*,0:?300::0".toList = none :=
+  ⟨(tcp_grammar _ _).mp (by decide +kernel), by decide +kernel⟩
 
-/-- non-vacuity: the witness line is in the class; a non-canonical line with every field form is in the
-language (obtained through `tcp_grammar_partial` from the parser accepting it) -/
-example : Huginn.KF.C06.unknownKindOverflow overflowLine ∧
-    TcpLine "4:64+03:0:1460:mss*020,7:mss,eol+1,?12:df,0+:+".toList
-      ⟨.v4, .distance 64 3, 0, some 1460, .mss 20, some 7, [.mss, .eol 1, .unknown 12], [.df, .mustBeZero], .nonZero⟩ :=
-  ⟨by decide +kernel, (tcp_grammar_partial _ _ (by decide +kernel)).mp (by decide +kernel)⟩
-
-/-- **`http::Signature`: the parser accepts exactly the printed forms.**  A text is accepted (before the
-name filter) with value `raw` iff it is the printed form of `raw` and `raw` is something the parser can
-return (`RawOk`: version 0/1/*, header names over `[A-Za-z0-9-]`, values without `]`, both lists
-non-empty because the header parser also accepts the empty string). -/
-theorem http_grammar (l r : Str) (raw : HttpSigL) :
-    parseHttpSigRawL l = some (raw, r) ↔ r = [] ∧ l = printHttpSigL raw ∧ RawOk raw := by
+/-- **`http::Signature::from_str` accepts exactly the printed forms of the values over the vocabulary.** -/
+theorem http_grammar (l : Str) (s : HttpSigL) :
+    parseHttpSigFullL l = some s ↔ l = printHttpSigL s ∧ WFHttpL s := by
   constructor
   · intro h
-    obtain ⟨e1, e2⟩ := parseHttpSigRawL_inv h
-    exact ⟨e1, e2.symm, rawOk_of_parse h⟩
-  · rintro ⟨rfl, rfl, hk⟩
-    exact parse_of_rawOk raw hk
+    refine ⟨(parse_print_http l s h).symm, ?_⟩
+    unfold parseHttpSigFullL full parseHttpSigL at h
+    cases hp : parseHttpSigRawL l with
+    | none => simp [hp] at h
+    | some x =>
+      obtain ⟨raw, r⟩ := x
+      obtain ⟨rfl, _⟩ := parseHttpSigRawL_inv hp
+      simp [hp] at h
+      subst h
+      rw [filterHabsent_id hp]
+      exact wf_of_parse hp
+  · rintro ⟨rfl, hw⟩
+    exact http_print_parse_L s hw
 
 /-! ### the database loader -/
 
-/-- The full statement for the loader: every well-formed document (sections in any order and repeated,
-comments, blank lines, any layout around `=`, `classes`/`ua_os` lines anywhere, unknown modules, `sys`
-lines) loads to exactly the database it denotes.  **False on the current tree** in two classes:
-`ua_os` rules in p0f syntax are dropped (`kf_uaOsLossy_witness`), and an HTTP signature with an empty
-`horder` comes back with a spurious header (`kf_docEmptyHorder_witness`). -/
-def FullLoadDoc : Prop := ∀ d : Doc, WFDoc d → loadDb (renderDoc d) = .ok (flatten d)
-
 /-- **Loading the text of a document yields exactly the classes, MTU groups, `ua_os` rules, labels and
 signatures written in it** — in file order, each signature under the label and table it was written
-under, nothing dropped, merged or duplicated — for every well-formed document outside the two
-known-finding classes.  Unbounded in the number of sections, items, and in every text length. -/
-theorem load_doc_partial (d : Doc) (h : WFDoc d) (h1 : ¬ Huginn.KF.C06.uaOsLossy d)
-    (h2 : ¬ Huginn.KF.C06.docEmptyHorder d) : loadDb (renderDoc d) = .ok (flatten d) :=
-  loadDb_renderDoc d ⟨h, h1, h2⟩
+under, nothing dropped, merged or duplicated — for **every** well-formed document: sections in any
+order and repeated, comments, blank lines, any layout around `=`, `classes`/`ua_os` lines anywhere
+(`ua_os` rules in p0f syntax `name` / `name=[text]`), unknown modules, `sys` lines.  Unbounded in the
+number of sections, items, and in every text length. -/
+theorem load_doc (d : Doc) (h : WFDoc d) : loadDb (renderDoc d) = .ok (flatten d) :=
+  loadDb_renderDoc d h
 
-/-- `ua_os = iOS=[iPad]` loads as the rule `iOS` without its text -/
-theorem kf_uaOsLossy_witness : ¬ FullLoadDoc := by
-  intro h
-  have := h ⟨[.uaOs {} [("iOS".toList, some "iPad".toList)]], []⟩ (by decide +kernel)
-  revert this
-  decide +kernel
-
-/-- the HTTP finding at document level: `sig = 1:::x` under a label -/
-theorem kf_docEmptyHorder_witness :
-    ¬ (∀ d : Doc, WFDoc d → ¬ Huginn.KF.C06.uaOsLossy d → loadDb (renderDoc d) = .ok (flatten d)) := by
-  intro h
-  have := h ⟨[], [.http [] [] false [.label {} ⟨.specified, none, ['x'], none⟩,
-    .sig {} ⟨.v11, [], [], ['x']⟩]]⟩ (by decide +kernel) (by decide +kernel)
-  revert this
-  decide +kernel
-
-/-- non-vacuity of `load_doc_partial`: a document with every kind of section and line -/
-example : ∃ d : Doc, WFDoc d ∧ ¬ Huginn.KF.C06.uaOsLossy d ∧ ¬ Huginn.KF.C06.docEmptyHorder d ∧
-    d.sections.length = 5 ∧ (flatten d).tcpReq.length = 2 ∧ (flatten d).mtu.length = 1 :=
+/-- non-vacuity: a document with every kind of section and line, incl. the former findings
+(`ua_os` rules with text, an HTTP signature with an empty header list) -/
+example : ∃ d : Doc, WFDoc d ∧ d.sections.length = 5 ∧ (flatten d).tcpReq.length = 2 ∧
+    (flatten d).mtu.length = 1 ∧ (flatten d).uaOs.length = 3 :=
   ⟨⟨[.comment [] " p0f".toList, .blank [], .classes {} ["win".toList, "unix".toList]],
     [.mtu [] [] [.label {} "Ethernet or modem".toList, .sig { pre := "   ".toList } 576, .sig {} 1500],
      .tcp [' '] ['\r'] false [.label {} ⟨.specified, some "unix".toList, "Linux".toList, some "3.x".toList⟩,
         .sig {} ⟨.any, .value 64, 0, none, .mss 20, some 10, [.mss, .sok, .ts, .nop, .ws], [.df, .nonZeroID], .zero⟩],
-     .http [] [] false [.misc (.uaOs {} [("Linux".toList, none)]),
+     .http [] [] false [.misc (.uaOs {} [("Linux".toList, none), ("iOS".toList, some "iPad".toList),
+          ("Mac OS X".toList, none)]),
         .label {} ⟨.specified, none, "Firefox".toList, some "2.x".toList⟩, .sys {} "Windows,@unix".toList,
-        .sig {} ⟨.any, [⟨false, "Host".toList, none⟩], [], "Firefox/".toList⟩],
+        .sig {} ⟨.any, [⟨false, "Host".toList, none⟩], [], "Firefox/".toList⟩,
+        .sig {} ⟨.v11, [], [], ['x']⟩],
      .other [] [] "tls".toList none [.sig {} "anything".toList],
      .tcp [] [] false [.label {} ⟨.generic, none, "Again".toList, none⟩]]⟩,
    by decide +kernel⟩
 
-/-- **A faulty `label`/`sig` line is an error, not a partial load**: after any document the loader
-reads, if the line is one `loadNamed` rejects in the state reached (see the `fault_*` theorems for the
-faults the statement names), the whole text is rejected with that error — whatever follows it. -/
-theorem load_rejects (d : Doc) (h : WFDoc d) (h1 : ¬ Huginn.KF.C06.uaOsLossy d)
-    (h2 : ¬ Huginn.KF.C06.docEmptyHorder d) {m : Str} {dd : Option Str}
+/-- **A faulty `label`/`sig` line is an error, not a partial load**: after any well-formed document, if
+the line is one `loadNamed` rejects in the state reached (see the `fault_*` theorems for the faults the
+statement names), the whole text is rejected with that error — whatever follows it. -/
+theorem load_rejects (d : Doc) (h : WFDoc d) {m : Str} {dd : Option Str}
     (hmod : lastMod none d.sections = some (m, dd))
     {pad : Pad} (hp : WFPad pad) {n : String} (hn : ItemName n) {v : Str} (hv : LineSafe v)
     {e : LoadErr} (he : loadNamed (flatten d) m dd (coreOf pad n.toList v) = .error e)
     (rest : List Str) (hrest : ∀ l ∈ rest, '\n' ∉ l) :
     loadDb (renderLines (docLines d ++ named pad n v :: rest)) = .error e :=
-  loadDb_fault d ⟨h, h1, h2⟩ hmod hp hn hv he rest hrest
+  loadDb_fault d h hmod hp hn hv he rest hrest
 
 /-- a line outside any module (not blank, comment, `classes`, `ua_os` or a header) is an error -/
-theorem load_rejects_outside (pre : List Misc)
-    (hpre : ∀ m ∈ pre, WFMisc m ∧ ¬ Huginn.KF.C06.miscUnreadable m) (l : Str)
+theorem load_rejects_outside (pre : List Misc) (hpre : ∀ m ∈ pre, WFMisc m) (l : Str)
     (h1 : trim l ≠ []) (h2 : (trim l).head? ≠ some ';') (h3 : (trim l).head? ≠ some '[')
     (h4 : stripPrefix classesKw (trim l) = none) (h5 : stripPrefix uaOsKw (trim l) = none)
     (hl : '\n' ∉ l) (rest : List Str) (hrest : ∀ x ∈ rest, '\n' ∉ x) :
@@ -284,7 +228,8 @@ theorem fault_sig_without_label (db : Db) {m : Str} {d : Option Str} {t : TableI
     loadNamed db m d (coreOf pad "sig".toList v) = .error (noLabelErr t) :=
   loadNamed_sig_noLabel db ht hm hp hv he
 
-/-- fault: a signature line whose text does not parse -/
+/-- fault: a signature line whose text does not parse (by `tcp_grammar` / `http_grammar`: is not a line of
+the signature language) -/
 theorem fault_unparsable_sig (db : Db) {m : Str} {d : Option Str} {t : TableId}
     (ht : tableOf m d = some t) (hm : m ≠ mtuKw) {pad : Pad} (hp : WFPad pad) {v : Str} (hv : LineSafe v)
     (hne : ¬ tableEmpty db t) (hbad : sigParses t v = false) :
@@ -304,9 +249,11 @@ theorem fault_mtu (db : Db) (d : Option Str) {pad : Pad} (hp : WFPad pad) {v : S
       loadNamed db mtuKw d (coreOf pad "sig".toList v) = .error .mtuValue) :=
   ⟨loadNamed_mtu_noLabel db d hp hv, loadNamed_mtu_badValue db d hp hv⟩
 
-/-- non-vacuity of `load_rejects`: `sig = 4:64:0:*:*,*:::` after `[tcp:request]` + a label -/
+/-- non-vacuity of `load_rejects`: `sig = 4:64:0:*:*,*:::` after `[tcp:request]` + a label; and a `ua_os`
+line with an unparsable rest is an error now, not a silent truncation -/
 example : loadDb (renderLines (docLines ⟨[], [.tcp [] [] false [.label {} ⟨.specified, none, ['x'], none⟩]]⟩ ++
-    [named {} "sig" "4:64:0:*:*,*:::".toList, "sig = 4:64:0:*:*,*:::0".toList])) = .error .tcpSig := by
+    [named {} "sig" "4:64:0:*:*,*:::".toList, "sig = 4:64:0:*:*,*:::0".toList])) = .error .tcpSig ∧
+    loadDb "ua_os = Linux,iOS=[iPad".toList = .error .uaOs := by
   decide +kernel
 
 /-! ### every signature line of the bundled p0f.fp -/
